@@ -551,9 +551,29 @@ class Translator:
             raise Unsupported(f'{where(n)}: reference to `{name}`, which is neither a parameter nor a local variable')
         return fr[name]
 
+    EXTRA_TYPES = {'stateless': 'Bool'}      # every other extra parameter is a comparator `α → α → Bool`
+
     def use_extra(self, name):
         if name not in self.extras:
             self.extras.append(name)
+
+    def extra_type(self, name):
+        return self.EXTRA_TYPES.get(name, 'α → α → Bool')
+
+    def source_text(self, n):
+        """the spelling of an expression in the header (clang's JSON does not print the qualifier of a DeclRefExpr)"""
+        r = n.get('range', {})
+        b, e = r.get('begin', {}), r.get('end', {})
+        b = b.get('expansionLoc', b); e = e.get('expansionLoc', e)
+        f = n.get('_file')
+        if f is None or 'offset' not in b or 'offset' not in e or not str(f).endswith(self.HEADER):
+            return None
+        try:
+            with open(f, 'rb') as fh:
+                data = fh.read()
+        except OSError:
+            return None
+        return ''.join(data[b['offset']:e['offset'] + e.get('tokLen', 0)].decode('utf-8', 'replace').split())
 
     @staticmethod
     def comp_term(v):
@@ -762,6 +782,15 @@ class Translator:
         if rd.get('kind') in ('ParmVarDecl', 'VarDecl'):
             if rd.get('name') == 'nullopt' and 'nullopt' not in path.frames[-1]:
                 return k(path, ('nullopt',))
+            if rd.get('name') == 'value' and 'value' not in path.frames[-1] and qual(n) == 'const bool':
+                # a type trait. Only `std::is_empty<Compare>::value` is known: whether the comparator TYPE is stateless is a
+                # parameter `stateless` of the generated definition (the instantiation translated has a stateless comparator,
+                # both arms are translated)
+                txt = self.source_text(n)
+                if txt == 'std::is_empty<Compare>::value':
+                    self.use_extra('stateless')
+                    return k(path, ('bt', 'stateless', True))
+                raise Unsupported(f'{where(n)}: reference to the constant `{txt or "value"}` (only std::is_empty<Compare>::value is known)')
             return k(path, self.lookup(path, rd['name'], n))
         raise Unsupported(f'{where(n)}: reference to {rd.get("kind")} `{rd.get("name")}`')
 
@@ -1464,6 +1493,7 @@ class Translator:
             fr = {q['name']: v for q, v in zip(ps, vs)}
             if who != 's':
                 fr['$self'] = who
+            fr['$member'] = ('meta', name)
             p.frames.append(fr)
             def kret(q, v):
                 q = q.copy()
@@ -1570,10 +1600,20 @@ class Translator:
     mode = 'member'
 
     def loop(self, s, path, after):
-        if self.mode != 'member' or len(path.frames) != 1:
-            raise Unsupported(f'{where(s)}: a loop inside a loop body / an inlined member is outside the translated subset')
-        if self.aux_names and any(a.endswith('_step') for a in self.aux_names):
-            raise Unsupported(f'{where(s)}: more than one loop in a member')
+        """a loop of the member being translated, or of a member inlined directly into it whose caller has no local state
+        (the loop body is then `<member>_<inlined member>_step`)"""
+        if self.mode != 'member' or len(path.frames) > 2:
+            raise Unsupported(f'{where(s)}: a loop inside a loop body / a member inlined at depth > 1 is outside the translated subset')
+        if len(path.frames) == 2:
+            live = [nm for nm, v in path.frames[0].items() if v[0] not in ('this', 'alloc', 'meta')]
+            if live or s.get('kind') != 'ForStmt' or '$member' not in path.frames[-1] or '$self' in path.frames[-1]:
+                raise Unsupported(f'{where(s)}: a loop inside an inlined member whose caller has local state {live} / of another shape '
+                                  f'than the cursor loop is outside the translated subset')
+            self.loop_name = f'{self.cur_lean}_{path.frames[-1]["$member"][1]}_step'
+        else:
+            self.loop_name = f'{self.cur_lean}_step'
+        if self.loop_name in self.aux_names:
+            raise Unsupported(f'{where(s)}: the loop is reached twice / more than one loop in a member')
         if s.get('kind') == 'ForStmt':
             return self.cursor_loop(s, path, after)
         return self.while_loop(s, path, after)
@@ -1595,7 +1635,7 @@ class Translator:
         itname = kids(init)[0]['name']
         if path.olst != 'o' or path.lst != 'l':
             raise Unsupported(f'{where(s)}: the sets are modified before the loop')
-        live = [nm for nm, v in path.frames[-1].items() if v[0] not in ('this', 'alloc')]
+        live = [nm for nm, v in path.frames[-1].items() if v[0] not in ('this', 'alloc', 'meta')]
         if live:
             raise Unsupported(f'{where(s)}: local variables / parameters {live} are live at the loop')
         def chk_init(p, v):
@@ -1612,7 +1652,7 @@ class Translator:
         return self.eval(kids(kids(init)[0])[0], path, chk_init)
 
     def cursor_loop2(self, s, body, itname, path, after):
-        name = f'{self.cur_lean}_step'
+        name = self.loop_name
         self.aux_names.append(name)
         sub = Path()
         sub.olst, sub.ocmp = 'o', 'lt_o'
@@ -1649,11 +1689,11 @@ class Translator:
         if len(c) != 2 or path.olst is None:
             raise Unsupported(f'{where(s)}: while statement of an unknown shape')
         cond, body = c
-        locs = [(nm, v) for nm, v in path.frames[-1].items() if v[0] not in ('this', 'alloc')]
+        locs = [(nm, v) for nm, v in path.frames[-1].items() if v[0] not in ('this', 'alloc', 'meta')]
         if not locs or any(v[0] not in ('it', 'oit') for nm, v in locs):
             raise Unsupported(f'{where(s)}: only iterators of the two sets may be live at the loop; found '
                               + ', '.join(f'`{nm}` ({v[0]})' for nm, v in locs))
-        name = f'{self.cur_lean}_step'
+        name = self.loop_name
         self.aux_names.append(name)
         lnames = []
         for nm, v in locs:
@@ -1853,7 +1893,7 @@ class Translator:
             what = what.replace('returned value', '(returned value, node handle left to the caller)')
         extras = list(self.extras)
         sig_params = ''.join(f' ({nm} : {ty})' for nm, ty in zip(names, ltypes))
-        sig_params += ''.join(f' ({ex} : α → α → Bool)' for ex in extras)
+        sig_params += ''.join(f' ({ex} : {self.extra_type(ex)})' for ex in extras)
         if ctor:
             head = f'def {lean}{sig_params} : {rty} :='
         else:
